@@ -9,6 +9,11 @@ Every verdict is decided by the textbook model of `Model/Paillier.lean` (`enc N 
 (1+N)^m · r^N mod N²` on GMP naturals, λ-based decryption, the group/plaintext/nonce algebra) and
 of `Model/ElGamal.lean` instantiated with the curve arithmetic of `Model/Curves.lean`.
 
+The secret-key mirrors of the model (`decCRT`, `openCRT`, `encSk`, `noiseSk`, `ctScalarSk`,
+`invModSk`, `rerandSk`, `nonceScalarSk`, `nonceMulSk` — the definitions `Props/C16.lean` proves
+equal to the textbook ones) are evaluated next to the textbook value on every `dec`, `open` and
+`skops` line; a disagreement there is a broken model (`UNSUPPORTED`), never a pass.
+
 `spec` is used where the property fixes the value (textbook ciphertext, decrypted plaintext,
 homomorphic images, membership decisions); `mirror` where the model only follows an implementation
 choice (reduction of over-long constructor inputs, error class names, order of validation).
@@ -90,12 +95,15 @@ def egHom (C : Params) (a : Nat) (path kind : String) (M : Pt) (r : Nat) (c : Pt
   let h := ElGamal.pub o g a
   match kind, operands with
   | "op", [m2s, r2s, c2as, c2bs] => do
-    let M2 ← parse? C m2s
-    let r2 ← hexToNat? r2s
-    let c2a ← parse? C c2as
-    let c2b ← parse? C c2bs
-    if ElGamal.enc o g h M2 r2 != (c2a, c2b) then none
-    some (ElGamal.ctOp o c (c2a, c2b), add C M M2, (r + r2) % C.n)
+    -- one or several further operands (comma lists of equal length), each a valid encryption
+    let Ms ← (m2s.splitOn ",").mapM (parse? C)
+    let rs ← (r2s.splitOn ",").mapM hexToNat?
+    let cas ← (c2as.splitOn ",").mapM (parse? C)
+    let cbs ← (c2bs.splitOn ",").mapM (parse? C)
+    if Ms.isEmpty || Ms.length ≠ rs.length || Ms.length ≠ cas.length || Ms.length ≠ cbs.length then none
+    let cs := List.zip cas cbs
+    if !(List.zip Ms (List.zip rs cs)).all (fun (Mi, ri, ci) => ElGamal.enc o g h Mi ri == ci) then none
+    some (cs.foldl (ElGamal.ctOp o) c, Ms.foldl (add C) M, (rs.foldl (· + ·) r) % C.n)
   | "inv", [] => some (ElGamal.ctInv o c, neg C M, (C.n - r % C.n) % C.n)
   | "scal", [ks] => do
     let k ← hexToNat? ks
@@ -252,6 +260,8 @@ def handle (op : String) (args : List String) (rhs : String) : Verdict :=
         let r := recoverNonce p q c m
         -- model-side sanity: the recovered pair re-encrypts to c (else the model is broken)
         if enc N m r != c then .unsupported "model: recovered pair does not re-encrypt" else
+        -- the model's own CRT N-th root (mirror of `SecretKey.Open`) must agree with the textbook one
+        if openCRT p q c != (m, r) then .unsupported "model: openCRT != (dec, recoverNonce)" else
         if rhs.startsWith "ok:" then
           match parseNatList? (rhs.drop 3).toString with
           | some [m', r'] =>
@@ -262,6 +272,50 @@ def handle (op : String) (args : List String) (rhs : String) : Verdict :=
           | _ => .unsupported "open rhs"
         else spec "open" (okList [m, r]) rhs
     | _, _, _, _ => .unsupported "open args"
+  -- every secret-key-accelerated operation on one tuple: CRT mirrors, textbook, implementation
+  | "skops", [ps, qs, ms, rs, ss, ks] =>
+    match hexToNat? ps, hexToNat? qs, hexToNat? ms, hexToNat? rs, hexToNat? ss, hexToInt? ks with
+    | some p, some q, some m, some r, some s, some k =>
+      let N := p * q
+      if !(isPt N m && isNonce N r && isNonce N s) then .unsupported "skops precondition" else
+      let c := enc N m r
+      let textbook := [c, noise N r, ctScalar N c k, ctInv N c, rerand N c s, nonceScalar N r k, nonceMul N r s]
+      let mirror := [encSk p q m r, noiseSk p q r, ctScalarSk p q c k, invModSk p q c, rerandSk p q c s,
+        nonceScalarSk p q r k, nonceMulSk p q r s]
+      if mirror != textbook then .unsupported "model: secret-key mirror != textbook" else
+      spec "sk-ops-textbook" (okList textbook) rhs
+    | _, _, _, _, _, _ => .unsupported "skops args"
+  -- signed plaintext -> encrypt -> decrypt -> normalise
+  | "symenc", [path, ns, xs, rs] =>
+    match hexToNat? ns, hexToInt? xs, hexToNat? rs with
+    | some N, some x, some r =>
+      if path != "pk" && path != "sk" then .unsupported "symenc path" else
+      if !isNonce N r then .unsupported "symenc nonce" else
+      if !inSymRange N x then specClass "symmetric-range" "err:range" rhs else
+      let m := fromSym N x
+      if toSym N m != x then .unsupported "model: toSym (fromSym x) != x" else
+      spec ("symmetric-enc-dec-" ++ path) ("ok:" ++ natToHex (enc N m r) ++ "," ++ intToHex x) rhs
+    | _, _, _ => .unsupported "symenc args"
+  -- values outside Z*_{N²}: no public route may turn them into a ciphertext that decrypts
+  | "decbad", [ps, qs, vs] =>
+    match hexToNat? ps, hexToNat? qs, hexToNat? vs with
+    | some p, some q, some v =>
+      let N := p * q
+      let routes := (rhs.splitOn ",").map (fun t => (t.splitOn "="))
+      if routes.isEmpty || routes.any (fun kv => kv.length != 2) then .unsupported "decbad rhs" else
+      let results := routes.map (fun kv => (kv.getD 0 "", kv.getD 1 ""))
+      if v != 0 && v < N * N && Nat.gcd v N == 1 then
+        -- control: a unit goes through every route and decrypts to the textbook plaintext
+        let want := okNat (dec p q v)
+        match results.find? (fun (_, r) => r != want && r != "na") with
+        | some (name, r) => .bad "decrypt" ("route " ++ name ++ " expected=" ++ want ++ " observed=" ++ r)
+        | none => if results.all (fun (_, r) => r == "na") then .unsupported "decbad: no live route" else .ok
+      else
+        match results.find? (fun (_, r) => r != "reject" && r != "na") with
+        | some (name, r) =>
+          .bad "nonunit-ciphertext-accepted" ("route " ++ name ++ " v=" ++ natToHex v ++ " observed=" ++ r)
+        | none => if results.all (fun (_, r) => r == "na") then .unsupported "decbad: no live route" else .ok
+    | _, _, _ => .unsupported "decbad args"
   -- homomorphic step on a tracked (m, r, c)
   | "hom", path :: ns :: kind :: ms :: rs :: cs :: operands =>
     match hexToNat? ns, hexToNat? ms, hexToNat? rs, hexToNat? cs with
